@@ -164,3 +164,48 @@ fn verif_native_c11_adapt_text() {
     }
     assert!(fails.is_empty(), "C11.N.adapt.text: {} wrong, first: {:?}", fails.len(), &fails[..fails.len().min(5)]);
 }
+
+
+//@n {"id":"C12.N.new","props":["C12","C09"],"tier":"quick","bound":"stack definitions: roll/unroll=m,n for m in -1..=6, n in -7..=7, plus fractional and wrong-length lists; push/pop/flip with index lists of length 1..=3 over 0..=5; every pair of sub-commands; no sub-command; through Minimal","text":"ill-formed stack sub-commands are rejected at instantiation: roll/unroll need exactly two integers m,n with |n| < m; push/pop/flip indices must be 1..4; exactly one sub-command per step"}
+#[test]
+fn verif_native_c12_new() {
+    let mut ctx = Minimal::default();
+    let mut fails = Vec::new();
+    let mut n = 0;
+    let mut judge = |def: String, valid: bool, fails: &mut Vec<String>, n: &mut usize| {
+        *n += 1;
+        let ok = ctx.op(&def).is_ok();
+        if ok != valid {
+            fails.push(format!("`{def}` {}", if ok { "accepted" } else { "rejected" }));
+        }
+    };
+    for cmd in ["roll", "unroll"] {
+        for m in -1..=6i32 {
+            for k in -7..=7i32 {
+                judge(format!("stack {cmd}={m},{k}"), m >= 1 && k.abs() < m, &mut fails, &mut n);
+            }
+        }
+        for bad in ["3", "3,1,1", "3.5,1", "3,0.5", "", "a,b"] {
+            judge(format!("stack {cmd}={bad}"), false, &mut fails, &mut n);
+        }
+    }
+    for cmd in ["push", "pop", "flip"] {
+        for a in 0..=5 {
+            judge(format!("stack {cmd}={a}"), (1..=4).contains(&a), &mut fails, &mut n);
+            for b in 0..=5 {
+                judge(format!("stack {cmd}={a},{b}"), (1..=4).contains(&a) && (1..=4).contains(&b), &mut fails, &mut n);
+                judge(format!("stack {cmd}={a},{b},3"), (1..=4).contains(&a) && (1..=4).contains(&b), &mut fails, &mut n);
+            }
+        }
+        judge(format!("stack {cmd}=1.5"), false, &mut fails, &mut n);
+    }
+    let subs = ["push=1", "pop=1", "flip=1", "roll=3,1", "unroll=3,1", "swap"];
+    for (i, a) in subs.iter().enumerate() {
+        judge(format!("stack {a}"), true, &mut fails, &mut n);
+        for b in subs.iter().skip(i + 1) {
+            judge(format!("stack {a} {b}"), false, &mut fails, &mut n);
+        }
+    }
+    judge("stack".to_string(), false, &mut fails, &mut n);
+    assert!(fails.is_empty(), "C12.N.new: {} of {} definitions wrong, first: {:?}", fails.len(), n, &fails[..fails.len().min(6)]);
+}
